@@ -10,6 +10,8 @@ import (
 	"github.com/cronokirby/saferith"
 	"github.com/taurusgroup/multi-party-sig/pkg/ecdsa"
 	"github.com/taurusgroup/multi-party-sig/internal/round"
+	"github.com/taurusgroup/multi-party-sig/internal/types"
+	"github.com/taurusgroup/multi-party-sig/pkg/hash"
 	"github.com/taurusgroup/multi-party-sig/pkg/math/curve"
 	"github.com/taurusgroup/multi-party-sig/pkg/math/polynomial"
 	"github.com/taurusgroup/multi-party-sig/pkg/party"
@@ -83,6 +85,11 @@ func c04Cases(env vk.Env) []vk.Case {
 			cs = append(cs, vk.Case{ID: fmt.Sprintf("high-degree/%s/pos%d", p, pos), Run: func(t *vk.T) { c04Degree(t, p, pos, 3+pos%2, 1, +1) }})
 			cs = append(cs, vk.Case{ID: fmt.Sprintf("low-degree/%s/pos%d", p, pos), Run: func(t *vk.T) { c04Degree(t, p, pos, 3+pos%2, 2, -1) }})
 		}
+	}
+	for pos := 0; pos < env.Pick(1, 3); pos++ {
+		pos := pos
+		cs = append(cs, vk.Case{ID: fmt.Sprintf("short-presignature-id/offline/pos%d", pos), Run: func(t *vk.T) { c04ShortID(t, "offline", pos+1) }})
+		cs = append(cs, vk.Case{ID: fmt.Sprintf("short-presignature-id/full/pos%d", pos), Run: func(t *vk.T) { c04ShortID(t, "full", pos) }})
 	}
 	for pos := 0; pos < env.Pick(2, 3); pos++ {
 		pos := pos
@@ -548,4 +555,118 @@ func c03Degree(t *vk.T, proto string, pos, n, th, delta int) {
 	}
 	t.Obs(fmt.Sprintf("degree_deviation|honest_finishers=%d", nDone), 1)
 	keygenJudge(proto, nil)(t, honest, fmt.Sprintf("%s|wrong-result|polynomial-of-degree-t%+d", proto, delta), tag)
+}
+
+// c04ShortID: the cheater commits (round 2) to a presignature-id contribution of 2 bytes with a correct commitment
+// and opens it correctly in round 7; everything else it sends is honest.  The opening is malformed: every honest
+// signer that gives up must name the cheater (not nobody, not an honest signer).
+func c04ShortID(t *vk.T, variant string, pos int) {
+	r := t.Rng
+	fx.InstallPrimeHook()
+	fx.SetPrimeOffset(uint64(r.Intn(1000)))
+	n := 3
+	ids := fx.IDs(r, r.Intn(3), n)
+	cm := fx.NewCMPMatDealt(ids, 1)
+	msg := r.Bytes(32)
+	C := ids[pos%n]
+	start := func(id party.ID) protocol.StartFunc {
+		if variant == "offline" {
+			return cmp.Presign(fx.CloneCMP(cm.Cfgs[id]), ids, nil)
+		}
+		return presign.StartPresign(fx.CloneCMP(cm.Cfgs[id]), ids, msg, nil)
+	}
+	n2, _, err := fx.RunMulti(r, ids, start, fx.Opt{SessionID: r.Bytes(4), NoRun: true})
+	if err != nil {
+		t.Inconclusive("start: %v", err)
+		return
+	}
+	cheater := n2.Party(C)
+	cheater.Corrupt = true
+	tag := fmt.Sprintf("cmp-presign-%s n=%d cheater=%q (position %d) deviation=two-byte-presignature-id", variant, n, C, pos%n)
+	rv, num := roundOf(cheater.H)
+	var newCommit []byte
+	applied := false
+	func() {
+		defer func() {
+			if rec := recover(); rec != nil {
+				applied = false
+			}
+		}()
+		if !rv.IsValid() || num != 2 {
+			return
+		}
+		hm := rv.MethodByName("HashForID")
+		if !hm.IsValid() {
+			return
+		}
+		h, ok := hm.Call([]reflect.Value{reflect.ValueOf(C)})[0].Interface().(*hash.Hash)
+		if !ok || h == nil {
+			return
+		}
+		short := types.RID{0xAB, 0xCD}
+		c2, d2, cerr := h.Commit(short)
+		if cerr != nil {
+			return
+		}
+		pid, ok1 := fieldOf(rv, "PresignatureID")
+		dec, ok2 := fieldOf(rv, "DecommitmentID")
+		if !ok1 || !ok2 {
+			return
+		}
+		pid.SetMapIndex(reflect.ValueOf(C), reflect.ValueOf(short))
+		dec.Set(reflect.ValueOf(d2))
+		newCommit = c2
+		applied = true
+	}()
+	replaced := false
+	n2.OnEmit = func(_ *sim.Net, from *sim.Party, m *protocol.Message) bool {
+		if applied && from == cheater && m.RoundNumber == 2 && m.Broadcast && !replaced {
+			if root, err := adv.Decode(m.Data); err == nil {
+				for _, s := range adv.Sites(root, 3) {
+					if s.Path == "/CommitmentID" {
+						if enc, err := adv.Encode(adv.With(root, s, []byte(newCommit), false)); err == nil {
+							m.Data = enc
+							replaced = true
+						}
+					}
+				}
+			}
+		}
+		return true
+	}
+	n2.OnDeliver = func(_ *sim.Net, d *sim.Delivery) []*sim.Delivery {
+		if d.Round == 0 {
+			return nil
+		}
+		return []*sim.Delivery{d}
+	}
+	var perr string
+	if p, fr, txt := vk.Guard(func() { n2.Run() }); p {
+		perr = fr + ": " + txt
+	}
+	t.Obs("evaluations", 1)
+	if !applied || !replaced {
+		t.Inconclusive("%s: the deviation could not be applied (state=%v message=%v)", tag, applied, replaced)
+		return
+	}
+	t.Distinct("short-presignature-id|%s|pos=%d", variant, pos%n)
+	if perr != "" {
+		t.Violation("short-presignature-id|"+variant+"|panic", "%s: a participant panicked: %s", tag, truncStr(perr, 200))
+		return
+	}
+	for _, o := range fx.Outcomes(n2) {
+		if o.ID == C {
+			continue
+		}
+		t.Obs("short_presignature_id|honest_"+o.State, 1)
+		switch o.State {
+		case "done":
+			t.Violation("short-presignature-id|"+variant+"|accepted", "%s: honest signer %q completed with a 2-byte presignature-id contribution", tag, o.ID)
+		case "failed":
+			var pe protocol.Error
+			if !errors.As(o.Err, &pe) || len(pe.Culprits) != 1 || pe.Culprits[0] != C {
+				t.Violation("short-presignature-id|"+variant+"|cheater-not-named", "%s: honest signer %q gives up with %v instead of naming the cheater", tag, o.ID, o.Err)
+			}
+		}
+	}
 }
